@@ -87,6 +87,112 @@ func blsAware(coordLen int) []func([]byte, int) []byte {
 	}
 }
 
+// blsOffSubgroup: the encoding is replaced, in the same form (compressed or not), by a point
+// that lies on the curve but outside the subgroup of order r: x is the a-th small integer for
+// which x^3 + b is a square (the cofactors are about 2^126 and 2^508: such a point is in the
+// subgroup with negligible probability; x = 0 gives the point (0, 2) of order 3 on G1). The
+// square roots are computed here with math/big, not by the library.
+func blsOffSubgroup(g2 bool) func([]byte, int) []byte {
+	p := blsP
+	half := new(big.Int).Rsh(p, 1)
+	sqrtFp := func(a *big.Int) *big.Int { return new(big.Int).ModSqrt(new(big.Int).Mod(a, p), p) }
+	type fp2 struct{ c0, c1 *big.Int }
+	mul2 := func(x, y fp2) fp2 {
+		a := new(big.Int).Mul(x.c0, y.c0)
+		a.Sub(a, new(big.Int).Mul(x.c1, y.c1))
+		b := new(big.Int).Mul(x.c0, y.c1)
+		b.Add(b, new(big.Int).Mul(x.c1, y.c0))
+		return fp2{a.Mod(a, p), b.Mod(b, p)}
+	}
+	sqrt2 := func(a fp2) (fp2, bool) {
+		if a.c1.Sign() == 0 {
+			if r := sqrtFp(a.c0); r != nil {
+				return fp2{r, big.NewInt(0)}, true
+			}
+			r := sqrtFp(new(big.Int).Neg(a.c0))
+			if r == nil {
+				return fp2{}, false
+			}
+			return fp2{big.NewInt(0), r}, true
+		}
+		n := new(big.Int).Mul(a.c0, a.c0)
+		n.Add(n, new(big.Int).Mul(a.c1, a.c1))
+		sn := sqrtFp(n)
+		if sn == nil {
+			return fp2{}, false
+		}
+		inv2 := new(big.Int).ModInverse(big.NewInt(2), p)
+		for _, sg := range []int{1, -1} {
+			t := new(big.Int).Set(a.c0)
+			if sg == 1 {
+				t.Add(t, sn)
+			} else {
+				t.Sub(t, sn)
+			}
+			t.Mul(t, inv2).Mod(t, p)
+			x0 := sqrtFp(t)
+			if x0 == nil || x0.Sign() == 0 {
+				continue
+			}
+			x1 := new(big.Int).Mul(a.c1, new(big.Int).ModInverse(new(big.Int).Lsh(x0, 1), p))
+			x1.Mod(x1, p)
+			r := fp2{x0, x1}
+			if sq := mul2(r, r); sq.c0.Cmp(new(big.Int).Mod(a.c0, p)) == 0 && sq.c1.Cmp(new(big.Int).Mod(a.c1, p)) == 0 {
+				return r, true
+			}
+		}
+		return fp2{}, false
+	}
+	enc := func(x *big.Int) []byte { return x.FillBytes(make([]byte, 48)) }
+	return func(v []byte, a int) []byte {
+		if a < 0 {
+			a = -a
+		}
+		compressed := len(v) > 0 && v[0]&0x80 != 0
+		want := a % 12
+		found := -1
+		for xi := int64(0); xi < 400; xi++ {
+			var out []byte
+			var big1 bool
+			if !g2 {
+				rhs := big.NewInt(xi*xi*xi + 4)
+				y := sqrtFp(rhs)
+				if y == nil {
+					continue
+				}
+				if a&1024 != 0 {
+					y.Sub(p, y).Mod(y, p)
+				}
+				big1 = y.Cmp(half) > 0
+				out = append(enc(big.NewInt(xi)), enc(y)...)
+			} else {
+				x := fp2{big.NewInt(xi), big.NewInt(1)}
+				x3 := mul2(mul2(x, x), x)
+				rhs := fp2{new(big.Int).Add(x3.c0, big.NewInt(4)), new(big.Int).Add(x3.c1, big.NewInt(4))}
+				y, ok := sqrt2(rhs)
+				if !ok {
+					continue
+				}
+				big1 = y.c1.Cmp(half) > 0 || (y.c1.Sign() == 0 && y.c0.Cmp(half) > 0)
+				out = append(append(append(enc(x.c1), enc(x.c0)...), enc(y.c1)...), enc(y.c0)...)
+			}
+			found++
+			if found != want {
+				continue
+			}
+			if compressed {
+				out = out[:len(out)/2]
+				out[0] |= 0x80
+				if big1 {
+					out[0] |= 0x20
+				}
+			}
+			return out
+		}
+		return nil
+	}
+}
+
 // coordEdge: a field-element encoding of n bytes that sits on an edge: 0, 1, p-1, p, 2^(8n)-1.
 func coordEdge(p *big.Int, n, a int) []byte {
 	var x *big.Int
@@ -168,7 +274,7 @@ func init() {
 				}
 				return Result{Accepted: true, Reenc: re, Member: g1InSubgroup(&p)}
 			},
-			Aware: blsAware(48),
+			Aware: append(blsAware(48), blsOffSubgroup(false)),
 		})
 		Register(&Entry{
 			Name: "bls12381.G2.SetBytes" + sfx, Canon: true, Prefix: true, Membership: true, Cost: 15, Seeds: 10,
@@ -222,7 +328,7 @@ func init() {
 				}
 				return Result{Accepted: true, Reenc: re, Member: g2InSubgroup(&p)}
 			},
-			Aware: blsAware(48),
+			Aware: append(blsAware(48), blsOffSubgroup(true)),
 		})
 	}
 	// ---- ff decoders ----
@@ -769,5 +875,27 @@ func registerBLS[K bls.KeyGroup](label string, pkLen int) {
 			var k K
 			_, err := bls.Aggregate(k, []bls.Signature{bls.Sign(key(9), msg), in})
 			return Result{Accepted: err == nil}
+		}})
+	// an aggregate of ONE signature: what comes back is a signature again — the compressed
+	// encoding of a point of the subgroup, whatever string went in
+	sigG2 := label == "G1"
+	Register(&Entry{Name: "bls[key" + label + "].Aggregate(single signature)", Cost: 40, Seeds: 3, Membership: true,
+		Aware: append(blsAware(48), blsOffSubgroup(sigG2)),
+		Valid: func(seed uint64) []byte { return bls.Sign(key(seed), msg) },
+		Call: func(in []byte) Result {
+			var k K
+			out, err := bls.Aggregate(k, []bls.Signature{in})
+			if err != nil {
+				return Result{}
+			}
+			ok := false
+			if sigG2 {
+				var q bls12381.G2
+				ok = len(out) == bls12381.G2SizeCompressed && q.SetBytes(out) == nil && g2InSubgroup(&q)
+			} else {
+				var q bls12381.G1
+				ok = len(out) == bls12381.G1SizeCompressed && q.SetBytes(out) == nil && g1InSubgroup(&q)
+			}
+			return Result{Accepted: true, Member: ok}
 		}})
 }
